@@ -85,9 +85,9 @@ Theorem C10_refines_yellow_paper : forall defined hash E P c input,
   (forall x, 0 <= cnth c x < 256) -> (forall x, 0 <= cnth input x < 256) ->
   (forall l, word (hash l)) -> (forall k, word (env_get E k)) ->
   forall fuel gas,
-    (exists w, yrun defined hash E c input fuel y0 = YOutside w) \/
+    (exists w, yrun spec_op defined hash E c input fuel y0 = YOutside w) \/
     match proj (fst (run impl_op valid_jumpdest hash E P c input fuel (init gas))) with
-    | Some r => yrun defined hash E c input fuel y0 = r
+    | Some r => yrun spec_op defined hash E c input fuel y0 = r
     | None => True
     end.
 Proof. exact impl_refines_yp. Qed.
@@ -103,6 +103,13 @@ Theorem C10_step_simulation : forall defined hash E P c input,
 Proof. exact step_sim. Qed.
 Print Assumptions C10_step_simulation.
 
+(* The correspondence run evaluates the Yellow-Paper machine with the mask-based word operations: the machine only
+   looks at their values, and fast_op = impl_op everywhere (which equals spec_op on words, C10_op_correct). *)
+Theorem C10_yp_eval : forall defined hash E c input fuel y,
+  yrun fast_op defined hash E c input fuel y = yrun impl_op defined hash E c input fuel y.
+Proof. intros. apply yrun_ext. apply fast_op_eq. Qed.
+Print Assumptions C10_yp_eval.
+
 (* Hypotheses are satisfiable: the table built from delta/alpha itself is accepted, and on it a program that
    stores 5 - 3, hashes nothing, reads the environment and returns runs identically on both machines. *)
 Example C10_example_yp :
@@ -114,7 +121,7 @@ Example C10_example_yp :
   let c := [96; 3; 96; 5; 3; 51; 1; 96; 0; 82; 96; 32; 96; 0; 243] in
   table_ok defined P = true /\
   fst (run_impl (fun _ => 0) E P c [] 100 1000) = OReturn (repeat 0 31 ++ [5]) (1000 - 10 * 3 - 3) /\
-  yrun defined (fun _ => 0) E c [] 100 y0 = YReturn (repeat 0 31 ++ [5]).
+  yrun spec_op defined (fun _ => 0) E c [] 100 y0 = YReturn (repeat 0 31 ++ [5]).
 Proof. cbv zeta. repeat (match goal with |- _ /\ _ => split end); vm_compute; reflexivity. Qed.
 
 (* Non-vacuity: the boundary cases named in the property. *)
